@@ -2,6 +2,7 @@ import FastgoModel.Proofs.GzipHeader
 import FastgoModel.Proofs.ZlibHeader
 import FastgoModel.Container.Digest
 import FastgoModel.Container.Members
+import FastgoModel.Proofs.WriterWrap
 /-!
 # C06 — gzip and zlib containers round-trip and interoperate
 
@@ -46,6 +47,30 @@ theorem C06_gzip_member_reads_back (I : Inflater) (h : GzHeader) (hwf : h.WF) (l
     readOneMember I (gzMember h level body payload ++ rest) = some (h, payload, rest) :=
   readOneMember_member I h hwf level body payload rest hI
 
+/-- what a gzip Writer has put on the destination once Close has returned nil, for ANY accepted history of
+    Write / Flush / Reset calls: the header of the current member, one complete DEFLATE stream that the
+    specification inflater decodes to exactly the data written, and the CRC-32 / length trailer of that data.
+    (Writer control model `Container/WriterWrap.lean`, tied by the `GW` correspondence; inner Writer under its
+    stream contract, see C10.) Together with `C06_gzip_header_roundtrip` and `C06_gzip_member_reads_back` this is
+    the whole member as a reader sees it. -/
+theorem C06_gzip_writer_emits_member {ι : Type} (O : CWriter.InnerOps ι) {mode : Mode} (C : CWriter.InnerStream O mode)
+    (i : ι) (level : Int) (h : GzHeader) (hf : C.Fresh i) (hh : (O.dst i).Healthy) (hg : (O.dst i).got = [])
+    (ops : List Writer.Op) (ha : CWriter.allAccepted ops (CWriter.gRun O (CWriter.GW.init i level h) ops).2) :
+    (CWriter.gClose O (CWriter.gRun O (CWriter.GW.init i level h) ops).1).2.err = none ∧
+    ∃ bodyBytes st rest, (O.dst (CWriter.gClose O (CWriter.gRun O (CWriter.GW.init i level h) ops).1).1.inner).bytes =
+        emitHeader (CWriter.hdrOf h ops) level ++ bodyBytes ++ emitTrailer (CWriter.dataOf [] ops) ∧
+      inflate mode [] bodyBytes = .done (CWriter.dataOf [] ops).toArray rest st ∧ rest.length < 8 :=
+  CWriter.gzip_close_stream O C i level h hf hh hg ops ha
+
+theorem C06_zlib_writer_emits_stream {ι : Type} (O : CWriter.InnerOps ι) {mode : Mode} (C : CWriter.InnerStream O mode)
+    (i : ι) (level : Int) (hf : C.Fresh i) (hh : (O.dst i).Healthy) (hg : (O.dst i).got = [])
+    (ops : List Writer.Op) (ha : CWriter.allAccepted ops (CWriter.zRun O (CWriter.ZW.init i level) ops).2) :
+    (CWriter.zClose O (CWriter.zRun O (CWriter.ZW.init i level) ops).1).2.err = none ∧
+    ∃ bodyBytes st rest, (O.dst (CWriter.zClose O (CWriter.zRun O (CWriter.ZW.init i level) ops).1).1.inner).bytes =
+        emitZHeader level none ++ bodyBytes ++ emitZTrailer (CWriter.dataOf [] ops) ∧
+      inflate mode [] bodyBytes = .done (CWriter.dataOf [] ops).toArray rest st ∧ rest.length < 8 :=
+  CWriter.zlib_close_stream O C i level hf hh hg ops ha
+
 /-! Non-vacuity: a header using every optional field. -/
 example : ({ extra := some [9, 9], name := [0x66, 0xe9], comment := [0x63], mtime := 1700000000, os := 3 } : GzHeader).WF := by
   simp [GzHeader.WF]
@@ -62,3 +87,5 @@ end Fastgo.Container
 #print axioms Fastgo.Container.C06_zlib_header_fcheck
 #print axioms Fastgo.Container.C06_zlib_trailer
 #print axioms Fastgo.Container.C06_gzip_member_reads_back
+#print axioms Fastgo.Container.C06_gzip_writer_emits_member
+#print axioms Fastgo.Container.C06_zlib_writer_emits_stream
